@@ -85,6 +85,8 @@ def gen_case(rng):
 		# a field the composer has a default for, set by the caller - also to the empty value
 		name = rng.choice(DEFAULTED_NAMES)
 		fields.append((name, rng.choice((u'', u'', u'x/1.0', u'text/plain', u'none', u'*/*;q=0.1'))))
+	if kind == 'request' and rng.random() < 0.15:
+		fields.append((u'Date', rng.choice((u'Sun, 06 Nov 1994 08:49:37 GMT', u'Thu, 01 Jan 1970 00:00:00 GMT'))))      # a request keeps the Date its sender gave it (a response is stamped by the composer)
 	source = rng.choice(SOURCES)
 	n = rng.choice((0, 1, 5, 300, 4096, 4097, 9000))
 	if source in ('text', 'textlist'):
@@ -125,7 +127,7 @@ def build(case):
 	keep = []
 	if kind == 'request':
 		m = Request()
-		m.method = method
+		m.method = method.encode('ascii') if seed % 3 == 0 else method      # the method as octets or as text
 		m.uri.path_segments = [u''] + list(segs) if segs else [u'', u'']
 		if query:
 			m.uri.query = query
